@@ -311,7 +311,7 @@ func runPermits(o *Out, r *rand.Rand, thorough bool, _ []string) {
 				defer wg.Done()
 				permit, _ := sn.p.Utp.GetOutboundPermit()
 				_, err := sn.p.VerifProcessOffer(target, acceptBytes(version, make([]uint8, 2), cid), req, permit)
-				free := waitFree(sn, false, limit, 19*time.Second)
+				free := waitFree(sn, false, limit, 28*time.Second)
 				lines[ci] = [2]string{fmt.Sprintf("procoffer kind=accepted_dial_unanswered v=%d limit=%d cid=%d", version, limit, cid), fmt.Sprintf("%s free=%d", errStr(err), free)}
 				sn.stop()
 			}()
@@ -453,8 +453,10 @@ func runPermits(o *Out, r *rand.Rand, thorough bool, _ []string) {
 				time.Sleep(20 * time.Millisecond)
 			}
 		}
-		fo := waitFree(c, false, limit, 40*time.Second)
-		fi := waitFree(b, true, limit, 40*time.Second)
+		// a transfer that stalls (a loaded machine) is given up by the code at its own deadlines - 15 s to connect, 60 s to write,
+		// 60 s to read; "once activity has ceased" is after those, so the wait is longer than the longest of them
+		fo := waitFree(c, false, limit, 80*time.Second)
+		fi := waitFree(b, true, limit, 80*time.Second)
 		arrived := len(b.queue)
 		o.Case(fmt.Sprintf("e2e limit=%d rounds=%d", limit, rounds), fmt.Sprintf("free_out=%d free_in=%d sent_ge1=%d arrived_ge1=%d", fo, fi, b2i(sent > 0), b2i(arrived > 0)))
 		c.stop()
